@@ -2,19 +2,20 @@
 counted as proved.
 
 Oracle (written from the statement, shares no code with tangermeme and does not use hooks):
-the model is an nn.Sequential built by the C04 generator without max-pooling.  For every
-example-reference pair the oracle runs the layers one by one on x and on ref, and walks back from
-the unit vector of the target:
-  * affine layer (Conv1d / Linear / AvgPool1d / Flatten / Unflatten / Transpose): its matrix is
-    measured by pushing the unit vectors through the layer (J[d, :] = layer(e_d) - layer(0)); the
-    multiplier goes through the TRANSPOSE of that matrix (no autograd involved);
+the model is an nn.Sequential (possibly with nested nn.Sequential containers, flattened by the oracle)
+built by the C04 generator without max-pooling.  For every example-reference pair the oracle runs the
+layers one by one on x and on ref, and walks back from the unit vector of the target:
+  * affine layer (Conv1d / Linear / AvgPool1d / Flatten / Unflatten / Transpose / Dropout in eval mode):
+    its matrix is measured by pushing the unit vectors through the layer (J[d, :] = layer(e_d) -
+    layer(0)); the multiplier goes through the TRANSPOSE of that matrix (no autograd involved);
   * element-wise activation f: multiplier *= (f(in_x) - f(in_ref)) / (in_x - in_ref) where the inputs
     differ, and f'(in_x) where they coincide exactly (f' by autograd on a fresh copy of the activation
     alone; where the one-sided difference quotients disagree -- a kink, e.g. ReLU at exactly 0 -- the
     oracle is evaluated with the left AND the right derivative and the case is only compared when both
     give the same multipliers).
-Cases in which some activation input has 0 < |in_x - in_ref| < 1e-4 are excluded (the statement
-excludes the ambiguous band around the implementation's 1e-6 switch).
+Cases in which some activation input has 0 < |in_x - in_ref| < BAND = 1e-5 are excluded (the statement
+excludes the ambiguous band around the implementation's 1e-6 switch; a difference of 1e-5 and more is
+ten times the switch and clearly "inputs that differ": the quotient is demanded there).
 
 Clauses checked against the REAL deep_lift_shap:
   (M) raw_outputs=True multipliers == oracle multipliers, pair by pair
@@ -22,25 +23,105 @@ Clauses checked against the REAL deep_lift_shap:
   (H) hypothetical=True:  attr[e, k, p] == mean_j sum_c (e_k - ref_j)[c, p] * m_j[c, p]   for EVERY character k
   (L) affine model: attribution of the observed character at p == mean_j sum_c W[c, p] (x - ref_j)[c, p]
       with W measured by forward passes of unit vectors, zero elsewhere; unchanged when every bias of
-      the model is replaced
+      the model is replaced; raw multipliers of every pair == W; hypothetical=True == the formula of (H)
+      with m = W
   (F) the public helper hypothetical_attributions on arbitrary real tensors == the formula of (H)
 Tolerance 1e-9 relative to 1 + max |expected| (float64; observed ~1e-16).
+
+For a reference TENSOR the oracle pairs multipliers with the tensor that was GIVEN (pair j of example e
+is (x_e, references[e, j])), not with what return_references hands back; for generated references
+(dinucleotide_shuffle / shuffle with an int seed) it uses the returned ones.
+
+Sections (beyond the original random nets / affine nets / helper calls)
+  small-delta   the first weight layer has DYADIC weights k * 2^-15 (or 2^-16) and bias (2j+1) * 2^-16
+                (2^-17), one-hot / zero references: every first-activation input is an exact dyadic number
+                that is never 0, and the example-reference differences are EXACTLY 0 or integer multiples
+                of 3.05e-5 (1.5e-5), i.e. many lie in [1.5e-5, 1e-4) -- far above the 1e-6 switch, outside
+                the excluded band -- and frequently straddle the kink of ReLU-like activations; the next
+                weight layer is scaled by 2^14 so that everything downstream is of order one
+  extra-act     element-wise activations outside the built-in table (Hardtanh, Softsign, Tanhshrink,
+                Hardswish, Hardsigmoid, Hardshrink, Threshold, user module x*x) registered through
+                additional_nonlinear_ops (library rule _nonlinear, or a rule written in bounded/C04)
+  nested        layers grouped into nested nn.Sequential containers (also 12% of the main nets)
+  tiny          sequence length 1-5 (reference tensors), incl. a single example-reference pair
+  many          5-9 examples x 1-6 references with the DEFAULT batch_size (argument not passed), and the
+                documented defaults n_shuffles=20 / batch_size=32 with dinucleotide_shuffle
+  train         the model is handed over in TRAINING mode, containing RReLU (random slope when training)
+                and/or Dropout; deep_lift_shap puts the model into eval mode itself (anchored code, L373)
+                so the result must be that of the eval-mode function (flag ENABLE_TRAIN_MODE)
+  history       call histories on shared state, run LAST so that a leak cannot contaminate the other
+                sections: a preceding call (other model / the same model) whose additional_nonlinear_ops
+                overrides the rule of every activation class of the model with the plain gradient; a
+                preceding call on the same model that raised after the hooks were registered
+Options mixed into the random sections: negative target index (12%), return_references=False with a
+reference tensor (25%), an n_shuffles argument contradicting the reference tensor (20%; documented:
+ignored), raw_outputs=True together with hypothetical=True (15%; still the multipliers), references at
+distance 3e-4 / 1e-3 / 1e-2 from x, x itself as a reference, duplicate references.
 """
 import warnings
 
 import numpy
 import torch
 
-from tangermeme.deep_lift_shap import deep_lift_shap, hypothetical_attributions
+from tangermeme.deep_lift_shap import deep_lift_shap, hypothetical_attributions, _nonlinear
 
-from bounded.C04 import (ACT_CLASSES, REF_KINDS, gen_spec, build, make_X, make_refs, nn)
+from bounded.C04 import (ACT_CLASSES, ACT_NAMES, EXTRA_NAMES, EXTRA_CLASSES, REF_KINDS, NEAR_EPS, Square,
+                         gen_spec, nestify, flat_layers, make_layer, init_weights, make_X, make_refs,
+                         _own_rescale, _passthrough, nn)
+
+torch.set_num_threads(1)
+
+# the anchored code calls model.eval() itself; a model handed over in training mode (RReLU / Dropout) must
+# therefore be evaluated as its eval-mode function.  Holds on the unchanged tree; switch off if the eval-mode
+# obligation is to be treated as a precondition of the caller instead.
+ENABLE_TRAIN_MODE = True
 
 SCOPE = {
-    'quick': 'seeded random sequential float64 nets from the C04 generator without max-pooling (depth 1-4 weight layers: Conv1d stride/dilation/padding, Linear, AvgPool1d, Flatten/Unflatten/Transpose, 16 element-wise activations), alphabet 2-5, length 6-14, 1-3 examples x 1-4 references (tensor one-hot/zeros/uniform/real; generated dinucleotide_shuffle / shuffle), every target, batch sizes 1..n*S+2: 1000 nets for clauses M/A/H, 300 affine nets for clause L (incl. bias replacement), 100 direct calls of hypothetical_attributions; band 0<|delta_in|<1e-4 and kink-ambiguous cases excluded',
-    'thorough': 'same, up to 15000 nets (time budget), 1500 affine nets, 1000 direct calls',
+    'quick': 'seeded random sequential float64 nets from the C04 generator without max-pooling (depth 1-4 weight layers: Conv1d stride/dilation/padding, Linear, AvgPool1d, Flatten/Unflatten/Transpose, 16 element-wise activations; 12% nested nn.Sequential containers), alphabet 2-5, length 6-14, 1-3 examples x 1-4 references (tensor one-hot/zeros/uniform/real/x itself/duplicates/x + 3e-4..1e-2 noise; generated dinucleotide_shuffle / shuffle with int seed), every target incl. negative indices, batch sizes 1..n*S+2, options return_references=False / contradicting n_shuffles / raw_outputs+hypothetical; oracle paired with the GIVEN reference tensor: 1000 nets for clauses M/A/H, 300 affine nets for clause L (bias replacement, raw multipliers == W, hypothetical=True), 120 direct calls of hypothetical_attributions (incl. non-contiguous arguments); + 80 small-delta nets (dyadic first layer: activation-input differences exactly 0 or k*3.05e-5 / k*1.5e-5, straddling kinks) + 8 extra activations x 2 and 24 random nets registered through additional_nonlinear_ops + 40 nested + 40 length 1-5 + 12 many-example nets with the default batch_size + 2 with the defaults n_shuffles=20/batch_size=32 + 30 nets handed over in training mode (RReLU / Dropout) + 24 call histories (rule overrides in a preceding call on another / the same model; a preceding failing call), run last; excluded: band 0<|delta_in|<1e-5 and kink-ambiguous cases',
+    'thorough': 'same, up to 15000 nets (time budget), 1500 affine nets, 1000 direct helper calls, 800 small-delta nets, 200 extra-activation nets, 300 nested, 300 tiny, 100 many-example, 10 defaults, 200 training-mode nets, 96 call histories',
 }
 
 REL = 1e-9
+BAND = 1e-5
+
+
+# ---------------------------------------------------------------------------------------------
+# models
+
+def _mk(l):
+    if l[0] == 'drop':
+        return nn.Dropout(l[1])
+    if l[0] == 'seq':
+        return nn.Sequential(*[_mk(x) for x in l[1]])
+    return make_layer(l)
+
+
+def _dyadic(model, case):
+    """first weight layer: weights k * 2^-e (k in -3..3), bias (2j+1) * 2^-(e+1) (never cancels to 0);
+    second weight layer scaled by 2^(e-1).  All sums of these numbers are exact in float64."""
+    e = case.get('dy_exp', 15)
+    g = torch.Generator().manual_seed(case['wseed'] + 17)
+    ws = [m for m in model.modules() if isinstance(m, (nn.Conv1d, nn.Linear))]
+    first = ws[0]
+    first.weight.data = torch.randint(-3, 4, first.weight.shape, generator=g).double() * 2.0 ** -e
+    first.bias.data = (2 * torch.randint(-2, 2, first.bias.shape, generator=g).double() + 1) * 2.0 ** -(e + 1)
+    if len(ws) > 1:
+        ws[1].weight.data = ws[1].weight.data * 2.0 ** (e - 1)
+
+
+def build(spec, wseed, gain, case=None):
+    m = init_weights(nn.Sequential(*[_mk(l) for l in spec]), wseed, gain)
+    if case is not None and case.get('dyadic'):
+        _dyadic(m, case)
+    return m
+
+
+def _flat(seq):
+    for c in seq:
+        if isinstance(c, nn.Sequential):
+            yield from _flat(c)
+        else:
+            yield c
 
 
 # ---------------------------------------------------------------------------------------------
@@ -77,7 +158,7 @@ def oracle(layers, Xp, Rp, target, side):
                 ox, orr = layer(hx), layer(hr)
                 tape.append(('act', layer, hx, hr, ox, orr))
                 d = (hx - hr).abs()
-                if bool(((d > 0) & (d < 1e-4)).any()):
+                if bool(((d > 0) & (d < BAND)).any()):
                     band = True
             else:
                 tape.append(('lin', _jac(layer, tuple(hx.shape[1:])), tuple(hx.shape[1:])))
@@ -99,15 +180,87 @@ def oracle(layers, Xp, Rp, target, side):
     return m, band
 
 
-def _call(model, X, refs_arg, kw, case, **mode):
-    numpy.random.seed(case['xseed'] % (2 ** 31))
+def _small_delta_stats(layers, Xp, Rp):
+    """number of first-activation inputs whose example-reference difference lies in [BAND, 1e-4), and how many
+    of those straddle 0"""
+    hx, hr = Xp, Rp
+    with torch.no_grad():
+        for layer in layers:
+            if isinstance(layer, ACT_CLASSES):
+                d = (hx - hr).abs()
+                sel = (d >= BAND) & (d < 1e-4)
+                return int(sel.sum()), int((sel & (hx * hr < 0)).sum())
+            hx, hr = layer(hx), layer(hr)
+    return 0, 0
+
+
+# ---------------------------------------------------------------------------------------------
+# calling the real function
+
+def _history(case, model, X):
+    """calls that precede the measured ones (call histories on shared state)"""
+    pre = case.get('pre')
+    if not pre:
+        return
+    A, L = case['A'], case['L']
+    zero = torch.zeros(1, 1, A, L, dtype=torch.float64)
     with warnings.catch_warnings():
         warnings.simplefilter('ignore')
-        return deep_lift_shap(model, X, target=case['target'], batch_size=case['batch_size'], references=refs_arg,
-                              device='cpu', **kw, **mode)
+        if pre in ('override-other', 'override-same'):
+            # user rules (the plain gradient) that override the built-in rule of every activation class of the model,
+            # for THAT call only
+            other = model if pre == 'override-same' else build(case['spec'], case['wseed'] + 5, case['gain'])
+            ops = {type(m): _passthrough for m in other.modules() if isinstance(m, ACT_CLASSES)}
+            ops[nn.ReLU] = _passthrough
+            deep_lift_shap(other, X[:1], references=zero, device='cpu', additional_nonlinear_ops=ops)
+        elif pre == 'raise':
+            # the SAME model, a call that fails after the hooks were registered
+            try:
+                deep_lift_shap(model, X[:1], target=10 ** 6, references=zero, device='cpu')
+            except Exception:
+                pass
+        else:
+            raise ValueError(pre)
+
+
+def _call(model, X, refs_arg, kw, case, **mode):
+    numpy.random.seed(case['xseed'] % (2 ** 31))
+    kw = dict(kw)
+    if isinstance(refs_arg, torch.Tensor) and case.get('nshuf_arg') is not None:
+        kw['n_shuffles'] = case['nshuf_arg']          # documented: ignored when a tensor is given
+    if case.get('batch_size') is not None:
+        kw['batch_size'] = case['batch_size']         # None: the default (32)
+    xops = {type(m): (_own_rescale if isinstance(m, (Square, nn.Softsign)) else _nonlinear) for m in model.modules() if isinstance(m, EXTRA_CLASSES)}
+    if xops:
+        kw['additional_nonlinear_ops'] = xops
+    with warnings.catch_warnings():
+        warnings.simplefilter('ignore')
+        return deep_lift_shap(model, X, target=case['target'], references=refs_arg, device='cpu', **kw, **mode)
+
+
+def _setup(case):
+    model = build(case['spec'], case['wseed'], case['gain'], case)       # handed to deep_lift_shap
+    clean = build(case['spec'], case['wseed'], case['gain'], case)       # never handed over: the oracle's copy (eval mode)
+    if case.get('train'):
+        model.train()
+    X = make_X(case)
+    refs_arg, kw = make_refs(case, X)
+    given = refs_arg.clone() if isinstance(refs_arg, torch.Tensor) else None
+    return model, clean, X, X.clone(), refs_arg, kw, given
+
+
+def _refs_of(case, X, given, returned):
+    """the references the oracle uses; a string if the shape is wrong"""
+    n, S, A, L = case['n'], case['S'], case['A'], case['L']
+    if returned is not None and tuple(returned.shape) != (n, S, A, L):
+        return 'returned references have shape %s, expected %s' % (tuple(returned.shape), (n, S, A, L))
+    return given if given is not None else returned.double()
 
 
 def _cmp(got, exp, what, out):
+    if not isinstance(got, torch.Tensor):
+        out.append('%s: a %s was returned, not a tensor' % (what, type(got).__name__))
+        return
     if tuple(got.shape) != tuple(exp.shape):
         out.append('%s: shape %s, expected %s' % (what, tuple(got.shape), tuple(exp.shape)))
         return
@@ -125,21 +278,26 @@ def check_rescale(case, info=None):
     """clauses M, A, H"""
     out = []
     n, S, A, L, t = case['n'], case['S'], case['A'], case['L'], case['target']
-    model = build(case['spec'], case['wseed'], case['gain'])
-    clean = build(case['spec'], case['wseed'], case['gain'])
-    X = make_X(case)
-    refs_arg, kw = make_refs(case, X)
     if case['refs'] == 'dinuc-noseed':
         raise ValueError('unseeded references cannot be compared across three calls')
+    model, clean, Xarg, X, refs_arg, kw, given = _setup(case)
+    ret = not (case.get('noret') and given is not None)     # return_references=False only with a reference tensor
+    rawmode = {'hypothetical': True} if case.get('rawhyp') else {}
     try:
-        mult, refs = _call(model, X, refs_arg, kw, case, raw_outputs=True, return_references=True)
-        attr = _call(model, X, refs_arg, kw, case)
-        hyp = _call(model, X, refs_arg, kw, case, hypothetical=True)
+        _history(case, model, Xarg)
+        if ret:
+            mult, refs = _call(model, Xarg, refs_arg, kw, case, raw_outputs=True, return_references=True, **rawmode)
+        else:
+            mult, refs = _call(model, Xarg, refs_arg, kw, case, raw_outputs=True, **rawmode), None
+        attr = _call(model, Xarg, refs_arg, kw, case)
+        hyp = _call(model, Xarg, refs_arg, kw, case, hypothetical=True)
     except Exception as e:
         return ['deep_lift_shap raised %s: %s' % (type(e).__name__, str(e)[:100])]
-    refs = refs.double()
+    refs = _refs_of(case, X, given, refs)
+    if isinstance(refs, str):
+        return [refs]
     Xp, Rp = X.repeat_interleave(S, 0), refs.reshape(n * S, A, L)
-    layers = list(clean)
+    layers = list(_flat(clean))
     m_lo, band = oracle(layers, Xp, Rp, t, -1)
     m_hi, _ = oracle(layers, Xp, Rp, t, +1)
     eye = torch.eye(A, dtype=torch.float64)
@@ -156,6 +314,7 @@ def check_rescale(case, info=None):
     if info is not None:
         info['excluded'] = not any(decided)
         info['partly'] = not all(decided)
+        info['band'] = band
     names = ('clause M (raw multipliers of every example-reference pair vs layer-by-layer rescale rule)         ',
              'clause A (attributions, hypothetical=False, vs X * mean_j sum_c (x-ref_j)*m_j)               ',
              'clause H (hypothetical=True vs mean_j sum_c (e_k-ref_j)*m_j for every character k)              ')
@@ -167,6 +326,8 @@ def check_rescale(case, info=None):
         Xg = Xp.clone().requires_grad_()
         g = torch.autograd.grad(clean(Xg)[:, t].sum(), Xg)[0]
         info['nontrivial'] = bool(((g - m_lo).abs() > 1e-6).any())
+        if case.get('dyadic'):
+            info['small'], info['straddle'] = _small_delta_stats(layers, Xp, Rp)
     return out
 
 
@@ -180,19 +341,25 @@ def check_affine(case):
     """clause L"""
     out = []
     n, S, A, L, t = case['n'], case['S'], case['A'], case['L'], case['target']
-    model = build(case['spec'], case['wseed'], case['gain'])
-    clean = build(case['spec'], case['wseed'], case['gain'])
-    X = make_X(case)
-    refs_arg, kw = make_refs(case, X)
+    model, clean, Xarg, X, refs_arg, kw, given = _setup(case)
     try:
-        attr, refs = _call(model, X, refs_arg, kw, case, return_references=True)
+        attr, refs = _call(model, Xarg, refs_arg, kw, case, return_references=True)
+        mult = _call(model, Xarg, refs_arg, kw, case, raw_outputs=True)
+        hyp = _call(model, Xarg, refs_arg, kw, case, hypothetical=True)
     except Exception as e:
         return ['deep_lift_shap raised %s: %s' % (type(e).__name__, str(e)[:100])]
-    refs = refs.double()
+    returned = refs.double()
+    refs = _refs_of(case, X, given, refs)
+    if isinstance(refs, str):
+        return [refs]
     W = _affine_W(clean, A, L, t)
     per_pos = (W[None, None] * (X[:, None] - refs)).sum(dim=2).mean(dim=1)
     exp = X * per_pos[:, None, :]
     _cmp(attr, exp, 'clause L (affine model: observed character gets mean_j sum_c W[c,p]*(x-ref_j)[c,p], others zero)', out)
+    _cmp(mult, W[None, None].expand(n, S, A, L), 'clause L (affine model: the raw multipliers of every pair are the weights W[c,p])              ', out)
+    eye = torch.eye(A, dtype=torch.float64)
+    exp_h = torch.stack([((eye[k][None, None, :, None] - refs) * W[None, None]).sum(dim=2).mean(dim=1) for k in range(A)], dim=1)
+    _cmp(hyp, exp_h, 'clause L (affine model, hypothetical=True: mean_j sum_c (e_k-ref_j)[c,p]*W[c,p] for every k)        ', out)
     # the same weights with every bias replaced
     other = build(case['spec'], case['wseed'], case['gain'])
     g = torch.Generator().manual_seed(case['wseed'] + 1)
@@ -201,8 +368,8 @@ def check_affine(case):
         if getattr(mod, 'bias', None) is not None:
             mod.bias.data = torch.randn(mod.bias.shape, generator=g, dtype=torch.float64) * 5 + 3
             nb += 1
-    attr2, refs2 = _call(other, X, refs_arg, kw, case, return_references=True)
-    if not torch.equal(refs2.double(), refs):
+    attr2, refs2 = _call(other, Xarg, refs_arg, kw, case, return_references=True)
+    if not torch.equal(refs2.double(), returned):
         out.append('clause L: references differ between two identical seeded calls')
     _cmp(attr2, exp, 'clause L (affine model, every bias replaced: attributions must not depend on the bias)          ', out)
     return out
@@ -215,6 +382,9 @@ def check_hypo(case):
     m = torch.randn(B, A, L, generator=g, dtype=torch.float64)
     X = torch.randn(B, A, L, generator=g, dtype=torch.float64) if case['realX'] else torch.eye(A, dtype=torch.float64)[torch.randint(0, A, (B, L), generator=g)].permute(0, 2, 1).contiguous()
     R = torch.randn(B, A, L, generator=g, dtype=torch.float64)
+    if case.get('noncontig'):
+        # the same values held in (B, L, A) memory order: non-contiguous views
+        m, X, R = (v.permute(0, 2, 1).contiguous().permute(0, 2, 1) for v in (m, X, R))
     m0, X0, R0 = m.clone(), X.clone(), R.clone()
     try:
         got = hypothetical_attributions((m,), (X,), (R,))
@@ -223,7 +393,7 @@ def check_hypo(case):
     out = []
     if not isinstance(got, tuple) or len(got) != 1:
         return ['hypothetical_attributions did not return a one-element tuple']
-    mn, Rn = m.numpy(), R.numpy()
+    mn, Rn = m0.contiguous().numpy(), R0.contiguous().numpy()
     exp = numpy.zeros((B, A, L))
     for b in range(B):
         for k in range(A):
@@ -238,34 +408,163 @@ def check_hypo(case):
 # ---------------------------------------------------------------------------------------------
 
 REFS = [r for r in REF_KINDS if r != 'dinuc-noseed']
+TENSOR_REFS = ['onehot', 'onehot', 'zeros', 'uniform', 'real', 'self', 'dup']
+# activations with a kink at 0 (the quotient across the kink differs from both one-sided derivatives) first
+KINKED = ['ReLU', 'ReLU', 'LeakyReLU', 'PReLU', 'RReLU', 'ELU', 'SELU', 'CELU', 'ReLU6']
 
 
-def _new_case(rng, kind, depth, acts=None):
+def _options(rng, case, nt, nest=0.12):
+    """rarely used options / argument forms"""
+    if case['refs'] == 'near':
+        case['eps'] = rng.choice(NEAR_EPS)
+    if rng.random() < 0.12:
+        case['target'] -= nt                  # negative index into the last dimension
+    if rng.random() < 0.25:
+        case['noret'] = 1                     # return_references=False (takes effect with a reference tensor)
+    if rng.random() < 0.2:
+        case['nshuf_arg'] = rng.choice([1, 7, 20])     # contradicts the reference tensor: must be ignored
+    if rng.random() < 0.15:
+        case['rawhyp'] = 1                    # raw_outputs=True together with hypothetical=True
+    if rng.random() < nest:
+        case['spec'] = nestify(rng, case['spec'])
+    return case
+
+
+def _new_case(rng, kind, depth, acts=None, L_range=(6, 14), n_range=(1, 3), S_range=(1, 4), refs=None, nest=0.12):
     A = rng.choice([4, 4, 4, 2, 3, 5])
-    L = rng.randint(6, 14)
-    n, S = rng.randint(1, 3), rng.randint(1, 4)
+    L = rng.randint(*L_range)
+    n, S = rng.randint(*n_range), rng.randint(*S_range)
     nt = rng.randint(1, 3)
     case = {'kind': kind, 'A': A, 'L': L, 'n': n, 'S': S, 'target': rng.randrange(nt), 'wseed': rng.randrange(10 ** 6),
-            'gain': rng.choice([0.7, 1.5, 3.0]), 'xseed': rng.randrange(10 ** 6), 'refs': rng.choice(REFS), 'rs': rng.randrange(1000),
+            'gain': rng.choice([0.7, 1.5, 3.0]), 'xseed': rng.randrange(10 ** 6), 'refs': rng.choice(refs or REFS), 'rs': rng.randrange(1000),
             'batch_size': rng.randint(1, n * S + 2)}
     case['spec'] = gen_spec(rng, A, L, depth, nt, maxpool=None, acts=acts)
+    return _options(rng, case, nt, nest)
+
+
+def _shape_after(spec, A, L):
+    cur = torch.zeros(1, A, L, dtype=torch.float64)
+    for l in spec:
+        cur = _mk(l).double()(cur)
+    return cur.shape
+
+
+def _small_delta_case(rng, k):
+    A = rng.choice([4, 4, 2, 3, 5])
+    L = rng.randint(6, 12)
+    n, S = rng.randint(1, 3), rng.randint(1, 4)
+    nt = rng.randint(1, 2)
+    while True:
+        C, ks = rng.randint(2, 4), rng.randint(1, 3)
+        spec = [['conv', A, C, ks, rng.randint(1, 2), 1, rng.randint(0, 1), 1], ['act', rng.choice(KINKED if k % 4 else ACT_NAMES), rng.randint(0, 5)]]
+        if rng.random() < 0.3:
+            spec.append(['avg', 2, 2, 0, 0, 1])
+        spec.append(['flat'])
+        try:
+            F = _shape_after(spec, A, L)[1]
+        except Exception:
+            continue
+        if F < 1 or F > 60:
+            continue
+        if k % 3 == 0:
+            spec += [['lin', F, nt, 1]]
+        else:
+            H = rng.randint(2, 5)
+            spec += [['lin', F, H, 1], ['act', rng.choice(ACT_NAMES), rng.randint(0, 5)], ['lin', H, nt, 1]]
+        break
+    case = {'kind': 'rescale', 'dyadic': 1, 'dy_exp': (15, 16)[k % 2], 'A': A, 'L': L, 'n': n, 'S': S, 'target': rng.randrange(nt),
+            'wseed': rng.randrange(10 ** 6), 'gain': rng.choice([0.7, 1.5, 3.0]), 'xseed': rng.randrange(10 ** 6),
+            'refs': rng.choice(['onehot', 'onehot', 'zeros', 'dinuc', 'shuffle']), 'rs': rng.randrange(1000), 'batch_size': rng.randint(1, n * S + 2),
+            'spec': spec}
     return case
+
+
+def _with_dropout(rng, spec):
+    """insert a Dropout layer somewhere before the head (identity in eval mode)"""
+    flat = [l for l in spec]
+    i = rng.randint(0, len(flat) - 1)
+    return flat[:i] + [['drop', rng.choice([0.2, 0.5])]] + flat[i:]
+
+
+def _run_rescale(rep, case, key, section, counters, finding='rescale-rule', sample=None):
+    info = {}
+    try:
+        res = check_rescale(case, info)
+    except Exception as e:
+        rep.note('harness error (%s %s): %s %s' % (section, key, type(e).__name__, str(e)[:100]))
+        return info
+    counters['excl'] += bool(info.get('excluded'))
+    counters['part'] += bool(info.get('partly')) and not info.get('excluded')
+    for what in res:
+        rep.violation(what, case, finding=finding)
+    rep.case((section, key), nontrivial=bool(info.get('nontrivial')) and not info.get('excluded'), section=section, sample=sample)
+    return info
 
 
 def run(rep):
     thorough = rep.tier == 'thorough'
     rng = rep.rng
+    cnt = {'excl': 0, 'part': 0}
     # clause F
-    for k in range(1000 if thorough else 100):
-        case = {'kind': 'hypo', 'seed': rng.randrange(10 ** 6), 'B': rng.randint(1, 3), 'A': rng.randint(2, 5), 'L': rng.randint(1, 6), 'realX': k % 2}
+    for k in range(1000 if thorough else 120):
+        case = {'kind': 'hypo', 'seed': rng.randrange(10 ** 6), 'B': rng.randint(1, 3), 'A': rng.randint(2, 5), 'L': rng.randint(1, 6), 'realX': k % 2,
+                'noncontig': int(k % 5 == 4)}
         for what in check_hypo(case):
             rep.violation(what, case, finding='hypothetical-projection')
         rep.case(('hypo', k), section='hypothetical_attributions', sample=case if k < 1 else None)
+    # small differences between example and reference at an activation, outside the excluded band
+    n_small = n_straddle = n_sd_excl = 0
+    for k in range(800 if thorough else 80):
+        case = _small_delta_case(rng, k)
+        info = _run_rescale(rep, case, k, 'small-delta', cnt, finding='small-delta', sample={'spec': case['spec'], 'refs': case['refs'], 'dy_exp': case['dy_exp']} if k < 1 else None)
+        n_small += info.get('small', 0)
+        n_straddle += info.get('straddle', 0)
+        n_sd_excl += bool(info.get('excluded') or info.get('partly'))
+    rep.note('small-delta: %d first-activation inputs with %g <= |in_x - in_ref| < 1e-4 (%d of them with in_x, in_ref of opposite sign); %d of the nets not fully compared' % (n_small, BAND, n_straddle, n_sd_excl))
+    # activations outside the built-in table, through additional_nonlinear_ops
+    for name in EXTRA_NAMES:
+        for q in range(6 if thorough else 2):
+            spec = [['conv', 4, 3, 3, 2, 2, 2, 1], ['act', name, q], ['avg', 2, 2, 0, 0, 1], ['flat'], ['lin', 9, 3, 1], ['act', name, q + 1], ['lin', 3, 2, 1]]
+            case = {'kind': 'rescale', 'A': 4, 'L': 12, 'n': 2, 'S': 3, 'target': q % 2, 'wseed': 200 + q, 'gain': (1.5, 4.0)[q % 2],
+                    'xseed': q, 'refs': ('onehot', 'dinuc', 'real')[q % 3], 'rs': q, 'batch_size': 4, 'spec': spec}
+            _run_rescale(rep, case, (name, q), 'extra-act', cnt)
+    for k in range(200 if thorough else 24):
+        case = _new_case(rng, 'rescale', rng.randint(2, 4), acts=EXTRA_NAMES + ['ReLU', 'Tanh'])
+        _run_rescale(rep, case, k, 'extra-act', cnt, sample={'spec': case['spec']} if k < 1 else None)
+    # nested containers
+    for k in range(300 if thorough else 40):
+        case = _new_case(rng, 'rescale', rng.randint(2, 4), nest=1.0)
+        _run_rescale(rep, case, k, 'nested', cnt, sample={'spec': case['spec']} if k < 1 else None)
+    # very short sequences, single pairs
+    for k in range(300 if thorough else 40):
+        case = _new_case(rng, 'rescale', 1 + k % 3, L_range=(1, 5), refs=TENSOR_REFS, n_range=(1, 2), S_range=(1, 3))
+        if k % 4 == 0:
+            case.update(n=1, S=1, batch_size=(1, 32)[k % 8 == 0], refs=rng.choice(['onehot', 'zeros', 'real']))
+        _run_rescale(rep, case, k, 'tiny', cnt, sample={'spec': case['spec'], 'L': case['L']} if k < 1 else None)
+    # many examples with the default batch size; the documented defaults
+    for k in range(100 if thorough else 12):
+        case = _new_case(rng, 'rescale', 1 + k % 3, n_range=(5, 9), S_range=(1, 6))
+        case['batch_size'] = None if k % 3 else rng.choice([5, 7, 11])
+        _run_rescale(rep, case, k, 'many', cnt)
+    for sd in range(10 if thorough else 2):
+        case = {'kind': 'rescale', 'A': 4, 'L': 16, 'n': 3, 'S': 20, 'target': sd % 2, 'wseed': sd, 'gain': 1.5, 'xseed': 50 + sd, 'refs': 'dinuc', 'rs': sd,
+                'batch_size': None, 'spec': gen_spec(rng, 4, 16, 3, 2, maxpool=None)}
+        _run_rescale(rep, case, sd, 'defaults', cnt)
+    # model handed over in training mode
+    if ENABLE_TRAIN_MODE:
+        for k in range(200 if thorough else 30):
+            case = _new_case(rng, 'rescale', rng.randint(2, 4), acts=['RReLU', 'RReLU', 'ReLU', 'Tanh', 'ELU'] if k % 2 else None, nest=0.0)
+            if k % 2 == 0 or k % 3 == 0:
+                case['spec'] = _with_dropout(rng, case['spec'])
+            case['train'] = 1
+            _run_rescale(rep, case, k, 'train', cnt, finding='train-mode', sample={'spec': case['spec']} if k < 1 else None)
     # clause L
     for k in range(1500 if thorough else 300):
         if rep.out_of_time():
             break
         case = _new_case(rng, 'affine', 1 + k % 4, acts='none')
+        case.pop('rawhyp', None)
+        case.pop('noret', None)
         try:
             res = check_affine(case)
         except Exception as e:
@@ -275,26 +574,21 @@ def run(rep):
             rep.violation(what, case, finding='affine')
         rep.case(('affine', k), section='affine', sample={'spec': case['spec'], 'refs': case['refs']} if k < 1 else None)
     # clauses M, A, H
-    n_excl = n_part = 0
     n_main = 15000 if thorough else 1000
+    reserve = 40 if thorough else 4          # for the call histories
     for k in range(n_main):
-        if rep.out_of_time():
+        if rep.left() < reserve:
             rep.note('rescale section cut at %d of %d (time budget)' % (k, n_main))
             break
-        case = _new_case(rng, 'rescale', 1 + k % 4)
-        info = {}
-        try:
-            res = check_rescale(case, info)
-        except Exception as e:
-            rep.note('harness error (rescale %d): %s %s' % (k, type(e).__name__, str(e)[:100]))
-            continue
-        n_excl += bool(info.get('excluded'))
-        n_part += bool(info.get('partly')) and not info.get('excluded')
-        for what in res:
-            rep.violation(what, case, finding='rescale-rule')
-        rep.case(('rescale', k), nontrivial=bool(info.get('nontrivial')) and not info.get('excluded'), section='rescale',
-                 sample={'spec': case['spec'], 'refs': case['refs'], 'n': case['n'], 'S': case['S'], 'batch_size': case['batch_size']} if k < 2 else None)
-    rep.note('%d rescale cases excluded entirely (band 0<|delta_in|<1e-4, or the one-sided derivative at a kink affects every clause); %d more compared on a subset of the clauses M/A/H only' % (n_excl, n_part))
+        case = _new_case(rng, 'rescale', (1, 2, 3, 4, 2, 3, 4, 3)[k % 8])
+        _run_rescale(rep, case, k, 'rescale', cnt,
+                     sample={'spec': case['spec'], 'refs': case['refs'], 'n': case['n'], 'S': case['S'], 'batch_size': case['batch_size']} if k < 2 else None)
+    # call histories (last: a leaked rule must not contaminate the sections above)
+    for k in range(96 if thorough else 24):
+        case = _new_case(rng, 'rescale', 2 + k % 3, acts=ACT_NAMES if k % 2 else ['ReLU', 'Tanh', 'Sigmoid', 'GELU', 'ELU', 'Softplus'], nest=0.1)
+        case['pre'] = ('override-other', 'override-same', 'raise')[k % 3]
+        _run_rescale(rep, case, k, 'history', cnt, finding='call-history', sample={'spec': case['spec'], 'pre': case['pre']} if k < 1 else None)
+    rep.note('%d rescale-type cases excluded entirely (band 0<|delta_in|<%g, or the one-sided derivative at a kink affects every clause); %d more compared on a subset of the clauses M/A/H only' % (cnt['excl'], BAND, cnt['part']))
 
 
 def replay(case):
